@@ -87,6 +87,16 @@ impl Runner for TalkRunner {
                 out.push("ok".into());
             }
             _ if !self.r.insts.contains_key(&'T') => noop(out),
+            // the requester's record (advertising some address of its own) is put into the routing
+            // table: responses must still go to the address the request is observed from
+            ["tknown", peer, shape] => {
+                let Some(seed) = peer.strip_prefix('k').and_then(|s| s.parse::<u64>().ok()) else { return noop(out) };
+                let Some(enr) = build_rec(seed, 1, shape, 0) else { return noop(out) };
+                let _ = self.r.insts[&'T'].discv5.add_enr(enr);
+                stats.bump("t.known-peer");
+                out.push("!OP tnop".into());
+                out.push("noop".into());
+            }
             ["tdeliver", peer, addr, rid, proto, payload] => {
                 let (Some(id), Some(a), Some(ridb), Some(p), Some(q)) = (parse_peer(peer), parse_addr(addr), unhx(rid), unhx(proto), unhx(payload)) else {
                     return noop(out);
@@ -204,6 +214,12 @@ impl Runner for TalkRunner {
 
 pub fn gen_case(rng: &mut Rng, tier: &str, _profile: &str, stats: &mut Stats) -> Vec<String> {
     let mut ops = vec![format!("tnew k{}", rng.range(1, 50))];
+    // some requesters are known (their record is in the routing table) under another address
+    for peer in 100..=104u64 {
+        if rng.chance(1, 3) {
+            ops.push(format!("tknown k{} {}", peer, if rng.chance(1, 2) { "4" } else { "4x" }));
+        }
+    }
     let n = rng.range(6, 40);
     let mut delivered = 0u64;
     let mut shut = false;
